@@ -158,10 +158,10 @@ def k_select(reply: str, n: int) -> str:
 
 
 # ------------------------------------------------------------ W: whole command
-LOCS = ['/v/a/foo', '/v/a/foobar', '/v/a', '/v/a/foo/x', '/v/b', '/v/a/z']
+LOCS = ['/v/a/foo', '/v/a/foobar', '/v/a', '/v/a/foo/x', '/v/b', '/v/a/z', '/v/a/foo-old/nested', '/v/a/foobar/y']
 DATES = ['2020-01-03T00:00:00', '2020-01-01T00:00:00', '2020-01-02T00:00:00', '2020-01-05T00:00:00',
-         '2020-01-04T00:00:00', '2020-01-01T00:00:00']
-SETS = [[0, 1, 2, 3, 4], [0, 1], [3, 5, 1], [4], [0, 1, 2, 3, 4, 5]]
+         '2020-01-04T00:00:00', '2020-01-01T00:00:00', '2020-01-06T00:00:00', '2020-01-07T00:00:00']
+SETS = [[0, 1, 2, 3, 4], [0, 1], [3, 5, 1], [4], [0, 1, 2, 3, 4, 5], [3, 6, 7], [0, 6]]
 PATHARGS = [('/v/a/foo', None), ('/v/a', None), ('/', None), ('/v', None), ('/v/a', 'foo'), ('/v/b', '/v/a/foo'),
             ('/v/a', '.'), ('/v/a/foo', '..'), ('/v/zzz', None)]
 SORTS = [None, 'date', 'path', 'none']
@@ -272,10 +272,10 @@ def _case(eset, pa, sort, reply):
 def w_main(eset: int, pa: int, sort: int, reply: int) -> str:
     """
     pre: PARTITION is None or pa == PARTITION
-    pre: 0 <= eset < 5 and 0 <= pa < 9 and 0 <= sort < 4 and 0 <= reply < 19
+    pre: 0 <= eset < 7 and 0 <= pa < 9 and 0 <= sort < 4 and 0 <= reply < 19
     post: _ == ''
     """
-    return _case(rt.sel(eset, 5), rt.sel(pa, 9), rt.sel(sort, 4), rt.sel(reply, 19))
+    return _case(rt.sel(eset, 7), rt.sel(pa, 9), rt.sel(sort, 4), rt.sel(reply, 19))
 
 
 def _prefix_parts(plen, maxlen):
@@ -304,5 +304,5 @@ def obligations(tier):
            bounds='reply over the alphabet, len<=%d; n<=4; restorer replaced by a recorder' % sparts[-1][2], stubs=['Restorer -> recorder']),
         CH('W_listing_and_selection', MOD, 'w_main', timeout=900, partitions=list(range(9)), engine='W',
            regime='selector', encodes=K.RESTORE_FUNCS, stubs=K.STUBS,
-           bounds='5 entry sets x 9 (cwd, path argument) x 4 sort modes x 19 replies'),
+           bounds='7 entry sets x 9 (cwd, path argument) x 4 sort modes x 19 replies'),
     ]
